@@ -241,10 +241,11 @@ public:
 
     //! \brief Read the stored samples from the stream
     void read(std::istream &is){
-        points.resize(IO::readNumber<IO::mode_binary_type, size_t>(is));
-        values.resize(IO::readNumber<IO::mode_binary_type, size_t>(is));
-        IO::readVector<IO::mode_binary_type>(is, points);
-        IO::readVector<IO::mode_binary_type>(is, values);
+        size_t num_points = IO::readNumber<IO::mode_binary_type, size_t>(is);
+        size_t num_values = IO::readNumber<IO::mode_binary_type, size_t>(is);
+        if (num_points % num_dimensions != 0) throw std::runtime_error("ERROR: corrupt list of stored samples");
+        points = IO::readVector<IO::mode_binary_type, double>(is, num_points);
+        values = IO::readVector<IO::mode_binary_type, double>(is, num_values);
     }
 
     //! \brief Add a point to the stored list.
